@@ -31,8 +31,8 @@ def compared_msg_names(fn):
 
 def measure_response_decode_guarded():
     """What does `Connection._dispatch` do with a response whose payload cannot be decoded on this side?  Measured on the
-    live class: a MSG_REPLY with a label `_unbox` does not know is dispatched on a connection that has a waiter registered
-    under its number.  True: the waiter is given the decode failure as its exception outcome and nothing leaves
+    live class: a MSG_REPLY with a label `_unbox` does not know, and a MSG_EXCEPTION with a payload `vinegar.load` cannot take
+    apart, are each dispatched on a connection that has a waiter registered under that number.  True: the waiter is given the decode failure as its exception outcome and nothing leaves
     `_dispatch`; False: the exception leaves `_dispatch` and the waiter stays registered, never completed."""
     from rpyc.core import brine, consts
     from rpyc.core.channel import Channel
@@ -56,29 +56,36 @@ def measure_response_decode_guarded():
 
         def write(self, data):
             pass
-    got = []
-    try:
-        conn = VoidService()._connect(Channel(Null(), False), {})
-        conn._request_callbacks[7] = lambda is_exc, obj: got.append((is_exc, type(obj).__name__))
-        data = brine.dump((consts.MSG_REPLY, 7, (99, 0)))
-    except Exception as ex:  # noqa
-        raise Inexpressible("cannot set up the response-decode probe: %r" % (ex,))
-    try:
-        conn._dispatch(data)
-        escaped = False
-    except Exception:  # noqa
-        escaped = True
-    finally:
+    def probe(msg, payload):
+        """True: guarded (delivered as an exception outcome, nothing escapes); False: escapes, the waiter stays registered"""
+        got = []
         try:
-            conn._closed = True          # (no transport behind it: nothing to close)
+            conn = VoidService()._connect(Channel(Null(), False), {})
+            conn._request_callbacks[7] = lambda is_exc, obj: got.append((is_exc, type(obj).__name__))
+            data = brine.dump((msg, 7, payload))
+        except Exception as ex:  # noqa
+            raise Inexpressible("cannot set up the response-decode probe: %r" % (ex,))
+        try:
+            conn._dispatch(data)
+            escaped = False
         except Exception:  # noqa
-            pass
-    if not escaped and got and got[0][0] is True and 7 not in conn._request_callbacks:
-        return True
-    if escaped and not got and 7 in conn._request_callbacks:
-        return False
-    raise Inexpressible("_dispatch of an undecodable response did something the model does not know: escaped=%s, "
-                        "delivered=%r" % (escaped, got))
+            escaped = True
+        finally:
+            try:
+                conn._closed = True          # (no transport behind it: nothing to close)
+            except Exception:  # noqa
+                pass
+        if not escaped and got and got[0][0] is True and 7 not in conn._request_callbacks:
+            return True
+        if escaped and not got and 7 in conn._request_callbacks:
+            return False
+        raise Inexpressible("_dispatch of an undecodable response (message type %r) did something the model does not know: "
+                            "escaped=%s, delivered=%r" % (msg, escaped, got))
+    # both kinds of response: a reply whose label `_unbox` does not know; an exception whose payload `vinegar.load`
+    # cannot take apart.  The constant is True only when BOTH are guarded.
+    reply = probe(consts.MSG_REPLY, (99, 0))
+    exc = probe(consts.MSG_EXCEPTION, 7)
+    return reply and exc
 
 
 def measure_cleanup():
